@@ -9,6 +9,7 @@ from fractions import Fraction as F
 from harness import tlc, tracecheck
 from harness import gen_explainer as G
 from harness.proxies import TapeMismatch
+from harness.fieldp import Unrepresentable
 
 # clause prefix -> property (DESIGN.md Appendix A)
 CLAUSE_PROPERTY = [
@@ -42,6 +43,8 @@ def run_scenarios(scenarios, construct_errors=None):
             if construct_errors is not None:
                 construct_errors.append((sc, str(e)))
             continue
+        except Unrepresentable:
+            continue        # a logged number has a denominator divisible by P: the scenario is skipped, never failed
         traces.append(tr)
         kept.append(sc)
     return traces, kept
